@@ -52,17 +52,18 @@ def sc(name, script=None, **kw):
 def directed(shape):
     """Hand-written schedules; an entry "x@g+" waits until x has arrived at g, "x@g" releases x from g."""
     out = []
-    if shape == "window":
+    if shape in ("window", "recheck"):
         # D1 (TLC counterexample of the NoKnown config): both enders pass the recording check, then both mark
         out.append(sc("D1-two-enders-in-window", ["e1@call", "e1@span.end.checked+", "e2@call", "e2@span.end.checked+",
                                                   "e1@span.end.checked", "e1@ret+", "e2@span.end.checked", "e2@ret+"],
                       nprocs=2, muts=["attrs"], etimers=1))
-        out.append(sc("D1-three-enders-mutator-between", ["m1@call", "m1@ret+", "e1@call", "e1@span.end.taskended+", "e2@call",
-                                                          "e2@span.end.checked+", "e3@call", "e3@span.end.checked+", "m2@call", "m2@ret+",
-                                                          "e1@span.end.taskended", "e1@onend:p1+", "e3@span.end.checked",
-                                                          "e3@span.end.marked+", "e1@onend:p1", "e1@ret+", "e3@span.end.marked",
-                                                          "e3@ret+", "c1@call", "c1@ret+", "e2@span.end.checked", "e2@ret+"],
-                      enders=3, muts=["attrs", "event"], children=1, ts=False))
+        if shape == "window":
+            out.append(sc("D1-three-enders-mutator-between", ["m1@call", "m1@ret+", "e1@call", "e1@span.end.taskended+", "e2@call",
+                                                              "e2@span.end.checked+", "e3@call", "e3@span.end.checked+", "m2@call", "m2@ret+",
+                                                              "e1@span.end.taskended", "e1@onend:p1+", "e3@span.end.checked",
+                                                              "e3@span.end.marked+", "e1@onend:p1", "e1@ret+", "e3@span.end.marked",
+                                                              "e3@ret+", "c1@call", "c1@ret+", "e2@span.end.checked", "e2@ret+"],
+                          enders=3, muts=["attrs", "event"], children=1, ts=False))
         # second ender arrives while the first is inside the window but checks only after the mark: ignored
         out.append(sc("window-then-late-check", ["e1@call", "e1@span.end.checked+", "m1@call", "m1@ret+", "e1@span.end.checked",
                                                  "e1@span.end.marked+", "e2@call", "e2@span.end.ignored+", "r1@call", "r1@ret+",
@@ -104,18 +105,28 @@ def run(ctx):
     binp = ctx.go_build("c10")
     # ------------------------------------------------------------ which shape does End have in this tree?
     p = ctx.run([binp, "probe"], timeout=120)
-    points = json.loads(p.stdout.strip().splitlines()[-1])["points"]
-    ctx.extra["hook_points_probe"] = points
-    hooks = True
-    if points == WINDOW:
+    pr = json.loads(p.stdout.strip().splitlines()[-1])
+    points = pr["points"]
+    ctx.extra["hook_points_probe"] = pr
+    hooks = True     # the tree has the span.end.* instrumentation points
+    replay = True    # SpanEnd.tla has a shape for this End: behaviours can be replayed through the gates
+    two = pr.get("two_enders") or {}
+    if points == WINDOW and two.get("completed") and two.get("reached_window") == [True, True] and two.get("delivered") == 2:
         shape = "window"
+    elif points == WINDOW and two.get("completed") and two.get("reached_window") == [True, True] and two.get("delivered") == 1:
+        shape = "recheck"      # the second End re-checks isRecording after the relock and returns
     elif points == MARKFIRST:
         shape = "markfirst"
     elif not [x for x in points if x.startswith("span.end.")]:
-        shape, hooks = "window", False
+        shape, hooks, replay = "markfirst", False, False
     else:
-        raise RuntimeError("End fires the instrumentation points in an order no shape of SpanEnd.tla describes: %s" % points)
-    ctx.extra["end_shape"] = shape
+        # End fires the points in an order no shape of SpanEnd.tla describes (a refactoring): the contract does
+        # not depend on the shape, so random / perturbed / bulk executions are still judged; only the gate replay
+        # of model behaviours is skipped (its scripts would not fit)
+        shape, replay = "markfirst", False
+        ctx.extra["note"] = ("End fires its instrumentation points in an order no shape of SpanEnd.tla describes (%s): "
+                             "contract-only validation, gate replay skipped" % pr)
+    ctx.extra["end_shape"] = shape if (replay or not hooks) else "unknown"
     known_model = (shape == "window")
 
     # ------------------------------------------------------------ exhaustive model checking
@@ -132,8 +143,9 @@ def run(ctx):
         if cov:
             zero = set(r["zero_cov"]) if zero is None else zero & set(r["zero_cov"])
     # vacuity: every action of SpanEnd.tla is taken somewhere (Terminated is the final stuttering step; the
-    # window actions do not exist in the markfirst shape)
-    absent = {"Terminated", "Next"} | ({"EUnlockForTask", "ERelock"} if shape == "markfirst" else set())
+    # window actions do not exist in the markfirst shape, ERecheck only in the recheck shape)
+    absent = ({"Terminated", "Next"} | ({"EUnlockForTask", "ERelock"} if shape == "markfirst" else set())
+              | (set() if shape == "recheck" else {"ERecheck"}))
     ctx.extra["zero_coverage_actions"] = sorted(zero - absent)
     if ctx.extra["zero_coverage_actions"]:
         ctx.note_inconclusive("vacuity: actions of SpanEnd.tla never taken: %s" % ctx.extra["zero_coverage_actions"])
@@ -143,10 +155,11 @@ def run(ctx):
     if r["violated"] != "Contract":
         ctx.note_inconclusive("model drift: TLC no longer finds D1 in the window shape when AllowKnown=FALSE (%s)" % r["out"])
     ctx.extra["model_exhibits_D1_when_not_admitted"] = (r["violated"] == "Contract")
-    # ... and the repaired shape satisfies the contract with nothing admitted
-    if shape != "markfirst":
-        ctx.tlc(S, "MC_SpanEnd", "MC_SpanEnd.cfg", defines=mc_defs(2, 1, 1, 1, 2, True, 0, "markfirst", False),
-                name="mc-repair-markfirst", timeout=1200, count=False)
+    # ... and both repaired shapes satisfy the contract with nothing admitted
+    for sh in ("markfirst", "recheck"):
+        if shape != sh:
+            ctx.tlc(S, "MC_SpanEnd", "MC_SpanEnd.cfg", defines=mc_defs(2, 1, 1, 1, 2, True, 0, sh, False),
+                    name="mc-repair-" + sh, timeout=1200, count=False)
     # liveness under fairness: every call returns (no deadlock is an invariant of every config above)
     ctx.tlc(S, "MC_SpanEnd", "MC_SpanEnd_live.cfg", defines=mc_defs(2, 1, 1, 0, 1, True, 0, shape, known_model),
             name="live-e2-m1-c1", timeout=1200)
@@ -158,7 +171,7 @@ def run(ctx):
     scenarios = []
     nbeh = 0
     expect = {}
-    if hooks:
+    if replay:
         seen = set()
 
         def behaviours(c, r, tag):
@@ -225,6 +238,10 @@ def run(ctx):
         if i == 0:
             ctx.add_samples(res["samples"][:1])
     # ------------------------------------------------------------ thorough: the same under the race detector
+    # ------------------------------------------------------------ hook-free volume stress (one line per span)
+    nb = 160000 if thorough else 40000
+    tf, res = harness(binp, "bulk", "bulk", ["-n", str(nb), "-enders", "4"])
+    traces.append((tf, "bulk"))
     race_reports = []
     if thorough:
         rbin = ctx.go_build("c10", race=True)
@@ -248,6 +265,7 @@ def run(ctx):
     ctx.extra["tlc_behaviours_replayed"] = nbeh
     ctx.extra["directed_schedules"] = len(scenarios) - nbeh
     ctx.extra["random_scenarios"] = chunks * per
+    ctx.extra["bulk_spans"] = nb + nb // 8
     kinds = {}
     for tf, label in traces:
         name = "trace-" + os.path.basename(tf)[len("trace-"):-len(".ndjson")]
@@ -262,7 +280,7 @@ def run(ctx):
                 lines = open(tf).read().splitlines()
             scen = []
             cfg = {}
-            for ln in lines[:v["line"]][::-1]:
+            for ln in lines[max(0, v["line"] - (3 if label == "bulk" else 100000)):v["line"]][::-1]:
                 rec = json.loads(ln)
                 if rec.get("sc") != v["sc"]:
                     break
@@ -300,10 +318,10 @@ def run(ctx):
     ctx.traces_validated += executed
     ctx.evaluations += executed
     if not hooks:
-        ctx.note_inconclusive("the tree has no span.end.* instrumentation points (proposed_fixes/C10-hooks.diff not applied): "
-                              "gate replay of TLC behaviours and directed schedules was skipped; only model checking and "
-                              "hook-free random scenarios ran")
-    elif shape == "window" and "delivered-twice" not in kinds:
+        ctx.note_inconclusive("the tree has no span.end.* instrumentation points at all (hook infrastructure missing): "
+                              "gate replay of TLC behaviours and directed schedules was skipped; only model checking, "
+                              "hook-free random scenarios and the bulk stress ran")
+    elif replay and shape == "window" and "delivered-twice" not in kinds:
         ctx.note_inconclusive("the directed schedule D1-two-enders-in-window did not reproduce the double delivery although "
                               "End has the window shape: model and code disagree (drift)")
     if counters.get("scenarios_stuck", 0) and "deadlock" not in kinds:
